@@ -35,6 +35,17 @@ def find_module(prop):
 
 
 def run_shard(mod, prop, tier, shard, nshards, out, budget_s):
+    # a cap on the address space of each shard: code that runs away (a loop that never ends and allocates as it goes)
+    # gets a MemoryError it has to answer for, instead of the kernel killing the shard (which would be inconclusive)
+    try:
+        import resource
+        gb = float(os.environ.get('VERIF_SHARD_MEM_GB', '4'))
+        soft, hard = resource.getrlimit(resource.RLIMIT_AS)
+        want = int(gb * 2 ** 30)
+        if hard == resource.RLIM_INFINITY or want < hard:
+            resource.setrlimit(resource.RLIMIT_AS, (want, hard))
+    except Exception:
+        pass
     deadline = time.time() + budget_s if budget_s else None
     ctx = common.Ctx(prop, tier, shard, nshards, deadline)
     cov = None
